@@ -4,7 +4,9 @@ import (
 	"fmt"
 	"os"
 	"path/filepath"
+	"sort"
 	"strings"
+	"time"
 
 	"verif/harness/gw"
 	"verif/harness/lib"
@@ -28,6 +30,8 @@ type progOpts struct {
 	readonly          bool                                                 // restart the gateways read-only after setupOps
 	classify          func(s *prog.Step, class string) (kind, sig string)
 	seedOff           int64
+	events            bool                                               // start a webhook endpoint and compare notification records per step
+	filter            map[string]bool                                    // event filter configuration (nil = none)
 	restartBeforeLast int                                                // restart every gateway before the last N ops of each program (0 = never)
 	post              func(steps []*prog.Step, res *lib.Result, idx int) // optional property oracle over the whole program
 }
@@ -53,11 +57,46 @@ func runPrograms(a lib.Args, res *lib.Result, po progOpts) error {
 	if err != nil {
 		return err
 	}
+	var hook *prog.Hook
+	filterLine := ""
+	if po.events {
+		hook, err = prog.StartHook()
+		if err != nil {
+			return err
+		}
+		defer hook.Close()
+		cfg.EventURL = hook.URL
+		if po.filter != nil {
+			var names []string
+			for k := range po.filter {
+				names = append(names, k)
+			}
+			sort.Strings(names)
+			var js, ln []string
+			for _, k := range names {
+				js = append(js, fmt.Sprintf("%q: %v", k, po.filter[k]))
+				v := "0"
+				if po.filter[k] {
+					v = "1"
+				}
+				ln = append(ln, k+"="+v)
+			}
+			path := filepath.Join(cfg.Work, "event-filter.json")
+			if err := os.WriteFile(path, []byte("{"+strings.Join(js, ",")+"}"), 0o644); err != nil {
+				return err
+			}
+			cfg.EventFilter = path
+			filterLine = strings.Join(ln, ",")
+			if filterLine == "" {
+				filterLine = "-"
+			}
+		}
+	}
 	n := po.nGateways
 	if n == 0 {
 		n = 1
 	}
-	w := &prog.World{Root: rootCreds(cfg)}
+	w := &prog.World{Root: rootCreds(cfg), Hook: hook}
 	start := func(readonly bool) error {
 		for _, g := range w.Gws {
 			g.Kill()
@@ -97,7 +136,10 @@ func runPrograms(a lib.Args, res *lib.Result, po progOpts) error {
 		if po.tune != nil {
 			po.tune(g)
 		}
-		setup := prog.Setup{Versioning: po.versioning, Accounts: prog.DefaultAccts}
+		setup := prog.Setup{Versioning: po.versioning, Accounts: prog.DefaultAccts, Filter: filterLine}
+		if hook != nil {
+			hook.Drain(2*time.Millisecond, 50*time.Millisecond)
+		}
 		wipe(cfg.Root)
 		if cfg.VersioningDir != "" {
 			wipe(cfg.VersioningDir)
@@ -190,6 +232,11 @@ func runPrograms(a lib.Args, res *lib.Result, po progOpts) error {
 		if po.post != nil {
 			po.post(steps, res, i)
 		}
+		if hook != nil {
+			for _, s := range steps {
+				s.CompareEvents = true
+			}
+		}
 		for j, s := range steps {
 			class := s.Diff()
 			if class == "" {
@@ -200,6 +247,9 @@ func runPrograms(a lib.Args, res *lib.Result, po progOpts) error {
 				What:  fmt.Sprintf("step %d of program %d (%s): implementation and model differ: %s", j, i, po.name, class),
 				Input: map[string]interface{}{"family": po.name, "program_index": i, "seed": a.Seed, "steps": prog.Describe(steps, j)},
 				Impl:  s.Impl, Model: s.Model})
+			if strings.HasPrefix(class, "events-differ") {
+				continue // only the notification differs: the states are still in step
+			}
 			break // states may have diverged; later steps are not comparable
 		}
 	}
